@@ -125,6 +125,7 @@ def main(tier, base_seed):
     total = 0
     tree = None
     known_hits = {}
+    gate_failures = []
     for flavour, mode, nruns in RUNS[tier]:
         nruns = max(CHUNK, int(nruns * scale))
         exe, env, bd = pyfleet.prepare(flavour)
@@ -143,8 +144,10 @@ def main(tier, base_seed):
         gv = set((v["idx"], provisional_key(v["signature"])) for v in g.viol)
         bv = set((v["idx"], provisional_key(v["signature"])) for v in b.viol if v["idx"] < gate_n)
         if mism or gv != bv:
-            raise common.HarnessFault("C19 %s/%s determinism gate failed: hash mismatches %s, verdict differences %s" % (flavour, mode, mism[:5], sorted(gv ^ bv)[:5]))
-        if b.harness:
+            # Memory-unsafe code is not deterministic.  A gate failure never turns into a verdict by itself: the candidate
+            # violations below must each pass their own reproduction gates; if none does, the check ends as a harness fault.
+            gate_failures.append("C19 %s/%s determinism gate failed: hash mismatches %s, verdict differences %s" % (flavour, mode, mism[:5], sorted(gv ^ bv)[:5]))
+        if b.harness and not b.viol:
             raise common.HarnessFault("C19 %s/%s worker problem: %r" % (flavour, mode, b.harness[0]))
         log("[C19] %s/%s: %d runs in %.0fs, %d ops, %d abstract states, %d worker deaths, %d violating runs; gate: %d runs re-executed (3 workers, other PYTHONHASHSEED): identical"
             % (flavour, mode, nruns, time.time() - tf, b.agg.get("steps", 0), len(b.extra.get("states", ())), b.deaths, len(b.viol), gate_n))
@@ -157,7 +160,11 @@ def main(tier, base_seed):
                 continue  # one replay per known finding is enough
             if len([r for r in results if not r.get("known")]) >= MAX_REPORTS:
                 break
-            r = handle(exe, env, flavour, mode, base_seed, v)
+            try:
+                r = handle(exe, env, flavour, mode, base_seed, v)
+            except common.HarnessFault as e:
+                gate_failures.append(str(e))      # this candidate did not reproduce: try the others
+                continue
             if r["signature"] in seen_sigs:
                 continue
             seen_sigs.add(r["signature"])
@@ -216,6 +223,9 @@ def main(tier, base_seed):
         "seeded sampling, not enumeration: a clean batch is evidence, not proof",
     ]
     unknown = [r for r in results if not r.get("known")]
+    if gate_failures and not unknown:
+        raise common.HarnessFault("; ".join(gate_failures[:3]))
+    coverage["reproduction_gate_failures"] = gate_failures[:5]
     common.write_evidence(PROP, tier, base_seed, coverage, assumptions, wall, len(unknown),
                           extra={"known_findings_reported": [r["signature"] for r in results if r.get("known")]})
     log("[C19] %d runs, %d abstract states, %.0fs" % (total, len(states_all), wall))
